@@ -136,6 +136,23 @@ def t3_legal_write(rearm=False, allow=None, pre=None):
     return check
 
 
+def establishes_stage_task_inv(ctx):
+    """StageTaskInv, the writer's side (the result helpers of RunTask rely on it as the validity of a loaded row): a stage
+    row is never stored with a status other than RUNNING while one of its tasks is stored RUNNING -- whoever finishes,
+    cancels or suspends a stage settles its running task in the same write."""
+    I = ctx.I
+    goals = []
+    for n, (e, g) in enumerate(stores(ctx)):
+        snap = e.data["snap"]
+        if "task_status" not in snap:
+            continue
+        i = fresh_int("ti")
+        running = status(I, "RUNNING")
+        goals.append((f"store{n}.no-running-task-under-a-stage-that-is-not-running",
+                      z3.Implies(z3.And(g, i >= 0, i < snap["task_len"], z3.Select(snap["task_status"], i) == running), snap["status"].t == running)))
+    return goals
+
+
 def stage_status_never_redirect(ctx):
     I = ctx.I
     goals = []
